@@ -13,21 +13,29 @@ from .runner import VERIF
 PROPS = ['c13', 'c14', 'c09', 'c10', 'c12', 'c15', 'c07']
 
 
-def _digests(mod, n, seed):
-    out = []
+def _digests(mod, n, seed, reverse=False):
+    cases = []
     for i, case in enumerate(mod.selftest_cases(n, seed)
                              if hasattr(mod, 'selftest_cases')
                              else mod.gen_cases('quick', seed)):
         if i >= n:
             break
-        r = mod.run_case(case)
-        out.append([r['digest'], sorted(v['sig'] for v in r['violations'])])
+        cases.append(case)
+    order = list(range(len(cases)))
+    if reverse:
+        order.reverse()
+    out = [None] * len(cases)
+    for i in order:
+        r = mod.run_case(cases[i])
+        out[i] = [r['digest'], sorted(v['sig'] for v in r['violations'])]
     return out
 
 
 def child(prop, n, seed):
+    # the fresh interpreter runs the cases in REVERSE order: a verdict or an
+    # event log must not depend on what the process executed before
     mod = importlib.import_module('props.%s' % prop)
-    json.dump(_digests(mod, n, seed), sys.stdout)
+    json.dump(_digests(mod, n, seed, reverse=True), sys.stdout)
 
 
 def main(n):
@@ -62,7 +70,8 @@ def main(n):
             continue
         same = a == b == c
         print('selftest %s: %d cases, same-process repeat %s, fresh '
-              'interpreter (PYTHONHASHSEED=4242) %s' % (prop, len(a),
+              'interpreter (PYTHONHASHSEED=4242, reverse order) %s' % (prop,
+              len(a),
               'identical' if a == b else 'DIFFERS',
               'identical' if a == c else 'DIFFERS'))
         if not same:
